@@ -158,6 +158,25 @@ RULES = {
 
 # ------------------------------------------------------------------------------------------------
 
+def _rule_drop_nested_fns(body, args):
+    """Remove fn items nested directly in the body (with their attributes and doc comments); they are
+    extracted as separate functions of the unit.  Counted so that a nested fn added or removed is seen."""
+    from rustscan import top_level_blocks
+    mask = code_mask(body)
+    cuts = []
+    for hdr, ob, cb in top_level_blocks(body, mask, 0, len(body)):
+        h = "".join(body[i] if mask[i] else " " for i in range(hdr, ob))
+        if re.search(r"^\s*(?:#\[[^\]]*\]\s*)*(?:pub(?:\([^)]*\))?\s+)?(?:const\s+)?(?:unsafe\s+)?(?:extern\s+\"[^\"]*\"\s+)?fn\s+\w+", h):
+            cuts.append((hdr, cb + 1))
+    out = body
+    for a, b in reversed(cuts):
+        out = out[:a] + out[b:]
+    return out, len(cuts)
+
+
+RULES["drop-nested-fns"] = _rule_drop_nested_fns
+
+
 def _parse_directive_block(lines):
     d = {"file": None, "path": None, "cfg": None, "as": None, "ret": None, "spec": [], "loops": {},
          "pre": [], "rules": [], "sig": [], "attrs": [], "dropq": [], "body_from": None}
@@ -373,12 +392,59 @@ def errno_consts(repo):
     return lines
 
 
+def extract_const(spec, repo=REPO, plain=False):
+    """`//@@ const <file> | <scope> ::> NAME == <value>` — rule R8: the const item's initialiser is taken
+    verbatim and emitted as `exec const NAME: T ensures <Self::>NAME == value { <initialiser> }`, so the
+    verifier proves the constant has the value the contracts are written against."""
+    m = re.match(r"(\S+)\s*\|\s*(.*?)\s*==\s*(.+)$", spec)
+    if not m:
+        raise Unsupported("bad const directive %r" % spec)
+    file, path, value = m.group(1), m.group(2), m.group(3).strip()
+    try:
+        src = open(os.path.join(repo, file), encoding="utf-8").read()
+    except OSError as e:
+        raise AnchorLost("cannot read %s: %s" % (file, e))
+    from rustscan import find_scopes
+    mask = code_mask(src)
+    parts = [q.strip() for q in path.split("::>")]
+    regions = [(0, len(src))]
+    for sc in parts[:-1]:
+        nxt = []
+        for (a, b) in regions:
+            for ob, cb in find_scopes(src, mask, sc, a, b):
+                nxt.append((ob + 1, cb))
+        if not nxt:
+            raise AnchorLost("scope `%s` not found in %s" % (sc, file))
+        regions = nxt
+    name = parts[-1]
+    hits = []
+    for (a, b) in regions:
+        for mm in re.finditer(r"(?:pub(?:\([^)]*\))?\s+)?const\s+" + re.escape(name) + r"\s*:\s*([^=;]+?)\s*=\s*([^;]+);", src[a:b]):
+            if mask[a + mm.start()]:
+                hits.append(mm)
+    if len(hits) != 1:
+        raise AnchorLost("const `%s` in %s: %d candidates" % (name, file, len(hits)))
+    ty, init = hits[0].group(1).strip(), hits[0].group(2).strip()
+    q = "Self::" if len(parts) > 1 else ""
+    if plain:
+        text = "    const %s: %s = %s;" % (name, ty, init)
+    else:
+        text = ("    exec const %s: %s ensures %s%s == %s { broadcast use vstd::layout::layout_of_primitives; %s }"
+                % (name, ty, q, name, value, init))
+    info = {"name": "const " + name, "source_fn": path, "file": file, "line_start": 0, "line_end": 0,
+            "sha256": _sha(hits[0].group(0)), "rules": {"R8-const-as-exec-const": 1}, "dropped": [], "loops": 0}
+    return text, info
+
+
 def render(template_path, repo=REPO, plain=False):
     """Process a template; returns Extracted."""
     ex = Extracted()
     tl = open(template_path, encoding="utf-8").read().split("\n")
     out = []
     i = 0
+    # `//@@plain-mode directives-only`: the plain emission (translation validation) consists of the extracted
+    # items alone; all Verus text of the template is left out
+    directives_only = plain and any(l.strip() == "//@@plain-mode directives-only" for l in tl)
     while i < len(tl):
         ln = tl[i]
         if ln.lstrip().startswith("//@@ fn "):
@@ -397,6 +463,13 @@ def render(template_path, repo=REPO, plain=False):
             ex.functions.append(info)
             for k, v in info["rules"].items():
                 ex.rule_counts[k] = ex.rule_counts.get(k, 0) + v
+        elif ln.lstrip().startswith("//@@ const "):
+            text, info = extract_const(ln.lstrip()[len("//@@ const "):], repo=repo, plain=plain)
+            out.append((text, {"k": "const", "fn": info["name"].replace(" ", "_"), "line": i + 1}))
+            ex.functions.append(info)
+            for k, v in info["rules"].items():
+                ex.rule_counts[k] = ex.rule_counts.get(k, 0) + v
+            i += 1
         elif ln.lstrip().startswith("//@@errno-consts"):
             for t in errno_consts(repo):
                 out.append((t, {"k": "template", "line": i + 1}))
@@ -413,7 +486,8 @@ def render(template_path, repo=REPO, plain=False):
                 i += 1
             i += 1
         else:
-            out.append((ln, {"k": "template", "line": i + 1}))
+            if not directives_only:
+                out.append((ln, {"k": "template", "line": i + 1}))
             i += 1
     ex.text = "\n".join(t for t, _ in out) + "\n"
     ex.linemap = [o for _, o in out]
